@@ -481,3 +481,18 @@ func init() {
 		fmt.Println(und)
 	}
 }
+
+func init() {
+	debugHooks["tables"] = func(c *Ctx) {
+		fmt.Println("package main\n\n// Reference decision tables (see pathtable.go). Generated with `gpycheck -dump tables` and reviewed against the\n// Python 3.4 / CPython definition named in each tableSpec.\n\nfunc init() {")
+		for _, ts := range tableSpecs {
+			got, und, _ := pathTable(c, ts)
+			fmt.Printf("\t// %s  %v\n\tpathSpec[%q] = []string{\n", ts.doc, und, ts.key)
+			for _, g := range got {
+				fmt.Printf("\t\t%q,\n", g)
+			}
+			fmt.Println("\t}")
+		}
+		fmt.Println("}")
+	}
+}
